@@ -56,16 +56,16 @@ type Origin struct {
 	// request is then not passed to Handle again.
 	EarlyHead func(conn, idx int, head *Msg) *Action
 
-	tcp  net.Listener
-	cap  int
-	mu   sync.Mutex
-	reqs []Received
-	cs   []net.Conn
-	n    int
+	tcp   net.Listener
+	cap   int
+	mu    sync.Mutex
+	reqs  []Received
+	cs    []net.Conn
+	n     int
 	shut  bool
 	peers map[net.Conn]*resetConn
 	done  chan struct{}
-	wg   sync.WaitGroup
+	wg    sync.WaitGroup
 
 	in, out int64
 }
